@@ -460,6 +460,8 @@ def check_sum_clip(ctx):
     init = None
     if len(outside) == 1:
         v0 = fv.value_of_def(outside[0], acc)
+        if v0 is not None:
+            v0 = fv.expand(v0, outside[0])
         init = (v0, outside[0]) if v0 is not None else None
     it = U(lp.iter)
     cover = None
